@@ -81,6 +81,9 @@ func (s *Service) OnPublish(c service.Conn, packet *mqtt.Publish) *errors.Error 
 
 	// If a user have specified a TTL, use that value
 	if ttl, ok := channel.TTL(); ok && ttl > 0 {
+		if ttl >= message.RetainedTTL {
+			ttl = message.RetainedTTL - 1 // Largest TTL which does not mean "retained"
+		}
 		msg.TTL = uint32(ttl)
 	}
 
